@@ -207,13 +207,14 @@ def gen_helpscan_attach(rng, idx, r):
     W = [[1], [4, 0, g]]
     X = [[1], [7, g], [2]]
     Y = [[1], [2]]
-    Z = [[1], [4, H - 1, o], [9, H - 1]]
+    Z = [[1], [4, H - 1, o], [9, H - 1]]        # Z keeps its guard to the end (cleared by the detach of the harness)
     w1 = len(W)
     W += [[7, o], [8]]
     if rng.chance(1, 2):
         W += [[7, o2], [8]]
-    Z += [[9, H - 1], [5, H - 1]]
-    phases = [(0, w1), (1, len(X)), (2, 1), (2, ("raw", r)), (3, 1), (2, len(Y)), (3, 2), (0, len(W)), (3, len(Z))]
+    # Y attaches BEFORE X detaches (an attach would otherwise simply take over X's unowned record)
+    phases = [(0, w1), (2, 1), (1, len(X)), (2, ("raw", r)), (3, 1), (2, len(Y)), (2, ("raw", 4)),
+              (3, len(Z)), (0, len(W))]        # the 4 slack entries let Y finish even when its step count differs from the model's
     c = {"id": "ha%d_r%d" % (idx, r), "cfg": [H, P, R, scan, 1, 400], "threads": [W, X, Y, Z], "sched": [],
          "meta": {"aimed": "helpscan_attach", "oddmode": 0, "disciplined": False}}
     return c, phases
